@@ -207,6 +207,37 @@ impl Corpus {
             total as f64 / distinct as f64
         }
     }
+    /// some value of the field occurs at least `min_run` times and its f64 image needs many
+    /// mantissa bits (ns timestamps, large integers, non-dyadic fractions): sums of such a run
+    /// are rounded, which is where variance formulas lose their sign
+    pub fn has_wide_run(&self, f: Fd, min_run: usize) -> bool {
+        let mut counts: std::collections::BTreeMap<u64, usize> = std::collections::BTreeMap::new();
+        for d in &self.docs {
+            for v in d.get(f) {
+                if let Some(x) = v.num() {
+                    *counts.entry(x.to_bits()).or_default() += 1;
+                }
+            }
+        }
+        counts.iter().any(|(bits, c)| {
+            let x = f64::from_bits(*bits);
+            *c >= min_run && x.is_finite() && (bits & ((1u64 << 52) - 1)).trailing_zeros() < 20
+        })
+    }
+    /// single-valued numeric / date fields without any value in the whole corpus
+    pub fn absent_numeric_fields(&self) -> Vec<Fd> {
+        [Fd::Ff, Fd::Fdt, Fd::Fi, Fd::Fu]
+            .into_iter()
+            .filter(|f| self.docs.iter().all(|d| d.get(*f).is_empty()))
+            .collect()
+    }
+    /// single-valued numeric / date fields with a wide run of at least 30 documents
+    pub fn wide_run_fields(&self) -> Vec<Fd> {
+        [Fd::Ff, Fd::Fdt, Fd::Fi, Fd::Fu]
+            .into_iter()
+            .filter(|f| self.has_wide_run(*f, 30))
+            .collect()
+    }
     pub fn max_multiplicity(&self, f: Fd) -> usize {
         self.docs.iter().map(|d| d.get(f).len()).max().unwrap_or(0)
     }
@@ -286,15 +317,19 @@ pub fn gen_corpus(rng: &mut Rng, big_ok: bool, force_big: bool) -> Corpus {
     let f_style = rng.weighted(&[40, 15, 8, 20, 10]);
     let f_step = *rng.pick(&[0.25f64, 0.5, 1.0, 2.5, 10.0]);
     let f_jit = rng.chance(1, 3);
-    let i_style = rng.weighted(&[35, 25, 15, 15, 8]);
+    let i_style = rng.weighted(&[35, 25, 15, 15, 8, 7]);
     let u_style = rng.weighted(&[35, 25, 25, 7, 6, 8]);
-    let d_base: i64 = *rng.pick(&[1_546_300_800_000i64, 0, 1_420_070_400_000]);
+    // some instant between 2014 and 2020 (ms)
+    let d_any: i64 = 1_400_000_000_000 + rng.irange(0, 200_000_000_000);
+    let d_base: i64 = *rng.pick(&[1_546_300_800_000i64, 0, 1_420_070_400_000, d_any]);
     let d_unit: i64 = *rng.pick(&[1i64, 1000, 60_000, 3_600_000, 86_400_000]);
     let d_span: i64 = *rng.pick(&[3i64, 20, 50]);
     let b_p = *rng.pick(&[10u64, 50, 90, 100]);
     let ip_pool = rng.urange(1, 30) as u64;
     let const_f = rng.irange(-20, 20) as f64 * f_step;
     let const_i = rng.irange(-100, 100);
+    // beyond 2^53: neighbouring integers share one f64 image with a long mantissa
+    let big_i = rng.irange(1 << 53, 1 << 62) * if rng.bool() { -1 } else { 1 };
 
     let mut docs = Vec::with_capacity(n);
     for id in 0..n {
@@ -368,7 +403,9 @@ pub fn gen_corpus(rng: &mut Rng, big_ok: bool, force_big: bool) -> Corpus {
                 1 => rng.irange(-50, 50) * 10,
                 2 => rng.irange(0, 1000),
                 3 => rng.irange(-1_000_000, 1_000_000),
-                _ => const_i,
+                4 => const_i,
+                // a few neighbouring large values
+                _ => big_i + rng.irange(0, 2),
             }
         };
         if present(rng, dens[Fd::Ff.idx()]) {
